@@ -170,6 +170,14 @@ class TitanRequest(BaseRequest):
         if ";" not in line:
             raise ValueError("Titan URL must contain parameters (;size=...)")
 
+        # The line is cut at the first ';' below: a fragment after the parameters,
+        # or a userinfo in an authority that contains a ';', would never be seen
+        # by the URL checks
+        if "#" in line:
+            raise ValueError(f"URL must not contain fragment: {line}")
+        if "@" in re.split(r"[/?#]", line[8:], maxsplit=1)[0]:
+            raise ValueError(f"URL must not contain userinfo (user:password): {line}")
+
         # Find the path end and params start
         # Format: titan://host/path;size=X;mime=Y;token=Z
         url_part, params_str = line.split(";", 1)
